@@ -206,7 +206,7 @@ def grep_forbidden(dirs):
 def audit(pid, dirs):
     """Print Assumptions for every theorem in Properties.v. Returns dict."""
     names = theorem_names(pid)
-    wd = os.path.join(CACHE, "audit", pid)
+    wd = os.path.join(CACHE, "audit", "%s.%d" % (pid, os.getpid()))
     os.makedirs(wd, exist_ok=True)
     body = ["From V.%s Require Import Properties." % pid]
     for n in names:
@@ -358,7 +358,8 @@ def eval_shard(pid, header, fns, lines, idx, wd, timeout=900):
 
 def eval_cases(pid, header, fns, lines, shard_size=600, jobs=16):
     """Evaluate all case lines; returns indices (global) failing each check."""
-    wd = os.path.join(CACHE, "run", pid)
+    # one directory per process: concurrent runs of the same property must not share case files
+    wd = os.path.join(CACHE, "run", "%s.%d" % (pid, os.getpid()))
     shutil.rmtree(wd, ignore_errors=True)
     os.makedirs(wd)
     shards = [lines[i:i + shard_size] for i in range(0, len(lines), shard_size)]
@@ -377,6 +378,8 @@ def eval_cases(pid, header, fns, lines, shard_size=600, jobs=16):
                 res["cls"][base + j] = c
             for t, c in r["tags"].items():
                 res["tags"][t] = res["tags"].get(t, 0) + c
+    if not res["errors"]:
+        shutil.rmtree(wd, ignore_errors=True)
     return res
 
 
